@@ -143,6 +143,7 @@ def verify_unit(unit, canary=True, extra=()):
     r.unit = unit
     r.errors = []
     r.canary = None
+    r.canaries = []
     r.undecided_reason = None
     upath = os.path.join(B.VX, "units", unit + ".vu")
     try:
